@@ -181,6 +181,24 @@ func MergeDoc(t *rapid.T) *YDoc {
 			_ = old
 		}
 	}
+	// an anchor name defined again inside the node that carries it: `nest: &n {in: &n 1, o: 2}` - an alias after it
+	// means the inner node (the latest definition before the alias), also when the outer node is a sequence
+	if rapid.IntRange(0, 3).Draw(t, "nestreuse") == 0 {
+		n++
+		name := fmt.Sprintf("a%d", n)
+		inner := sc("nin")
+		inner.Anchor = name
+		var outer *YN
+		if rapid.Bool().Draw(t, "nestseq") {
+			outer = &YN{K: YSeq, Flow: rapid.Bool().Draw(t, "nestflow"), Elem: []*YN{sc("ne0"), inner, sc("ne2")}}
+		} else {
+			outer = &YN{K: YMap, Flow: rapid.Bool().Draw(t, "nestflow"),
+				Keys: []*YN{{K: YScalar, T: "str", S: "in"}, {K: YScalar, T: "str", S: "o"}}, Vals: []*YN{inner, sc("no")}}
+		}
+		outer.Anchor = name
+		root.Keys = append(root.Keys, &YN{K: YScalar, T: "str", S: "nest"}, &YN{K: YScalar, T: "str", S: "nestref"})
+		root.Vals = append(root.Vals, outer, &YN{K: YAlias, Target: inner, TName: name})
+	}
 	return &YDoc{Root: root}
 }
 
